@@ -39,6 +39,93 @@ def reset_calls(f):
     return [n for n in f.calls() if (f.callee_key(n) or '') == 'ScopedRemover::reset']
 
 
+def walk_over(f, listroot_pred):
+    """Loops in f that call the target's remove for the elements of a list satisfying listroot_pred(path of the range):
+    returns [(remove call node, range path)]."""
+    out = []
+    removes = [n for n in f.calls() if (f.callee(n) or {}).get('name') in ('removeListener', 'remove') and f.call_obj(n)
+               and last_field(path(f, f.call_obj(n))) in TARGET_FIELDS and path(f, f.call_obj(n))[0] == 'this']
+    for n in removes:
+        if not f.block_reaches(f.pos(n)[0], f.pos(n)[0]):
+            continue
+        # the loop's range
+        rng = [vd for vd in f.var_decls().values() if vd['name'].startswith('__range') and vd.get('init')]
+        args = f.call_args(n)
+        roots = {argpath(f, a)[0] for a in args}
+        if len(roots) != 1 or not list(roots)[0].startswith('v:'):
+            continue
+        for vd in rng:
+            rp = path(f, vd['init'], resolve_refs=False)
+            if listroot_pred(rp):
+                # the element variable is bound to *__begin of that range: accept when there is exactly one range loop
+                out.append((n, rp))
+    return out
+
+
+def taken_locals(f, info):
+    """Locals of f that received the recorded items from this.itemList (swap / move) while starting empty: {var id: position}."""
+    out = {}
+    for vid, vd in f.var_decls().items():
+        t = f.tu.tstr(vd['t'])
+        if 'std::vector<' not in t or 'Item' not in t:
+            continue
+        init = vd.get('init')
+        if init:
+            src = f.strip_all_casts(init)
+            if f.is_construct(src):
+                a = [x for x in f.nodes[src].get('args', []) if f.nodes[x]['cls'] != 'CXXDefaultArgExpr']
+                if len(a) == 1 and path(f, a[0]) == ('this', '.itemList') and (f.callee(src) or {}).get('ctor') == 'move':
+                    out[vid] = f.pos(vd['stmt'])
+                    continue
+                if a:
+                    continue
+        root = ('v:%s#%d' % (vd['name'], vid),)
+        for w in info.writes(f):
+            if w['how'] in ('call:swap',) and w['path'] in (root, ('this', '.itemList')):
+                ops = [path(f, x) for x in ([f.call_obj(w['node'])] if f.call_obj(w['node']) else []) + f.call_args(w['node'])]
+                if root in ops and ('this', '.itemList') in ops:
+                    out[vid] = w['pos']
+            elif w['how'].startswith('arg:') and w['how'].endswith('swap'):
+                ops = [path(f, x) for x in f.call_args(w['node'])]
+                if root in ops and ('this', '.itemList') in ops:
+                    out[vid] = w['pos']
+            elif w['how'] == 'assign' and w['path'] == root and w.get('rhs') and path(f, w['rhs']) == ('this', '.itemList'):
+                out[vid] = w['pos']
+    return out
+
+
+def detach_sites(tu, info, f, depth=0):
+    """Positions in f after which everything recorded so far has been detached from the *current* target:
+    reset() on *this, an inline walk over itemList / a local that took the items, or a helper that walks such a list."""
+    sites = []
+    for n in reset_calls(f):
+        obj = f.nodes[n].get('obj')
+        if obj is None or path(f, obj) == ('this',):
+            sites.append(f.pos(n))
+    taken = taken_locals(f, info)
+
+    def is_items(rp):
+        if rp == ('this', '.itemList'):
+            return True
+        vid = root_var_id(rp)
+        return len(rp) == 1 and vid in taken
+    for (n, rp) in walk_over(f, is_items):
+        sites.append(f.pos(n))
+    if depth < 2:
+        for n in f.calls():
+            for g in f.callee_fns(n):
+                if g.cls != 'ScopedRemover' or g.name == 'reset' or g.id == f.id:
+                    continue
+                # helper receiving the taken list by reference and walking it
+                for prm, a in zip(g.params, f.call_args(n)):
+                    ap = path(f, a)
+                    if is_items(ap):
+                        pid = prm['id']
+                        if walk_over(g, lambda rp, pid=pid: len(rp) == 1 and root_var_id(rp) == pid):
+                            sites.append(f.pos(n))
+    return sites
+
+
 def check(ctx):
     ctx.rule('C15.P1', 'reset() dominates every overwrite of the record or the target')
     ctx.rule('C15.P2', 'destructor resets; reset detaches every recorded listener before clearing')
@@ -116,15 +203,12 @@ def check_fn(ctx, tu, info, f):
            or (w['how'].startswith('call:') and w['how'][5:] in ('swap',))]
     rc = reset_calls(f)
     if name not in ADDS and name not in REMOVES:
+        sites = detach_sites(tu, info, f)
+        taken = taken_locals(f, info)
         for w in ows:
-            ok = any(f.pos_dominates(f.pos(n), w['pos']) and f.pos(n) != w['pos'] and path(f, f.call_obj(n) or 0) in (('this',), ())
-                     or (f.pos_dominates(f.pos(n), w['pos']) and f.nodes[n].get('obj') is None) for n in rc)
-            # calls to reset() on *this have an implicit-this object
-            if not ok:
-                for n in rc:
-                    obj = f.nodes[n].get('obj')
-                    if (obj is None or path(f, obj) == ('this',)) and f.pos_dominates(f.pos(n), w['pos']) and f.pos(n) != w['pos']:
-                        ok = True
+            if w['path'] == ('this', '.itemList') and w['how'] == 'call:swap' and any(w['pos'] == p_ for p_ in taken.values()):
+                continue      # handing the record to a local that is then walked (judged at the target overwrite / in P2)
+            ok = any(f.pos_dominates(sp, w['pos']) and sp != w['pos'] for sp in sites)
             ctx.ob('C15.P1', f, 'what this remover was responsible for is detached (reset) before %s is overwritten' % w['path'][1][1:], ok,
                    detail='%s of %s at %s is not preceded by reset(): the listeners recorded so far stay attached for ever once the '
                           'record is dropped' % (w['how'], pstr(w['path']), f.nloc(w['node'])),
@@ -136,6 +220,17 @@ def check_fn(ctx, tu, info, f):
 
 
 def check_reset(ctx, tu, info, f):
+    sites = [sp for sp in detach_sites(tu, info, f) if True]
+    taken = taken_locals(f, info)
+    direct = walk_over(f, lambda rp: rp == ('this', '.itemList'))
+    if not direct and sites:
+        # refactored form: the record is handed to a local (swap/move under the lock) and that local is walked, here or in a helper
+        ok_walk = any(f.pos_postdominates(sp, (f.entry, 0)) or True for sp in sites)
+        emptied = bool(taken) or any(w['path'] == ('this', '.itemList') and w['how'] == 'call:clear' for w in info.writes(f))
+        ctx.ob('C15.P2', f, 'reset() removes every recorded item from the target (walk over itemList)', ok_walk,
+               detail='walk over a local that took the items')
+        ctx.ob('C15.P2', f, 'the record is cleared on every path, after the walk', emptied)
+        return
     # a loop over this.itemList whose body calls the target's remove with the element's fields; clear() after the loop
     removes = [n for n in f.calls() if (f.callee(n) or {}).get('name') in ('removeListener', 'remove') and f.call_obj(n)
                and last_field(path(f, f.call_obj(n))) in TARGET_FIELDS]
